@@ -61,8 +61,15 @@ def _compile_chunk(cases: list) -> list:
 def compile_cases(cases: list, chunk: int = 0, roundtrip: bool = False) -> list:
     """cases: [(id, abstract page, today)] -> trace records, compiled by the real compiler in parallel."""
     chunk = chunk or max(1, min(50, -(-len(cases) // (par.NPROC * 3))))
-    chunks = [cases[i:i + chunk] for i in range(0, len(cases), chunk)]
-    return [r for part in par.pmap(_compile_chunk_rt if roundtrip else _compile_chunk, chunks, chunk=1) for r in part]
+    # deal the cases out like cards: sources come in runs of equal cost (one-line items, then 40-line random pages)
+    k = max(1, -(-len(cases) // chunk))
+    chunks = [cases[j::k] for j in range(k)]
+    done = par.pmap(_compile_chunk_rt if roundtrip else _compile_chunk, chunks, chunk=1)
+    out = [None] * len(cases)
+    for j, part in enumerate(done):
+        for i, r in enumerate(part):
+            out[j + i * k] = r
+    return out
 
 
 def tlc_verdicts(records: list, ctx, tag: str, batch: int = 4000) -> dict:
